@@ -186,7 +186,13 @@ func (V *Verifier) frameCheck(fn *ssa.Function) []frameFinding {
 					if cn == nil {
 						callee := cc.StaticCallee()
 						if callee != nil && callee.Pkg != nil && (callee.Pkg == V.P.Bexpr || callee.Pkg == V.P.Grammar) {
-							ok, why = false, "callee "+ck+" has no contract (may write anything)"
+							// no contract: the zero-annotation write-effect analysis says which
+							// writes of the callee (and its callees) reach memory it did not
+							// allocate itself; none = nothing visible to the caller changes
+							effs := sortedEffects(V.effects().eff[callee])
+							if len(effs) > 0 {
+								ok, why = false, fmt.Sprintf("callee %s has no contract and may write memory it did not allocate: %s %s", ck, effs[0].root.String(), effs[0].what)
+							}
 						} else if ck != "" {
 							ok, why = false, "external callee "+ck+" has no contract"
 						}
